@@ -41,6 +41,9 @@ pub enum Alt {
     AddP { limb: u8 },
     /// b[pos] += 2, b[pos+1] -= 1: same weighted sum, not boolean
     NonBool { pos: u8 },
+    /// like `NonBool`, and the operand columns of the two bits' BoolCheck rows are set to 0
+    /// independently of the slot value (the check only binds if those columns are on the bus)
+    NonBoolDecoupled { pos: u8 },
     /// one bit flipped (breaks the recomposition identity: must be rejected)
     Flip { pos: u8 },
     /// coefficient j decreased by t, coefficient i increased by t * e_j / e_i (not a base value)
@@ -166,7 +169,7 @@ fn check<C: Pv>(c: &Case) -> Report {
             }
             class = "bits:x+p".into();
         }
-        (What::Bits { .. }, Alt::NonBool { pos }) => {
+        (What::Bits { .. }, Alt::NonBool { pos }) | (What::Bits { .. }, Alt::NonBoolDecoupled { pos }) => {
             if nbits < 2 {
                 return Report::discard("needs two bits");
             }
@@ -180,7 +183,11 @@ fn check<C: Pv>(c: &Case) -> Report {
             }
             alt[k] = alt[k] + C::EF::TWO;
             alt[k + 1] = alt[k + 1] - C::EF::ONE;
-            class = "bits:non-boolean".into();
+            class = if matches!(c.alt, Alt::NonBoolDecoupled { .. }) {
+                "bits:non-boolean-decoupled".into()
+            } else {
+                "bits:non-boolean".into()
+            };
         }
         (What::Bits { .. }, Alt::Flip { pos }) => {
             let k = *pos as usize % nbits;
@@ -254,7 +261,22 @@ fn check<C: Pv>(c: &Case) -> Report {
         .fold(C::EF::ZERO, |a, (i, v)| a + *v * C::base(i as u64 + 3));
     pins.insert(y_slot, y_alt);
     let w = opsem::propagate::<C>(&circuit, &w0, &pins);
-    let t = forge::traces_from_assignment::<C>(&circuit, &w, &honest);
+    let mut t = forge::traces_from_assignment::<C>(&circuit, &w, &honest);
+    if matches!(c.alt, Alt::NonBoolDecoupled { .. }) {
+        // BoolCheck rows of forged bits: put a boolean value into the checked columns
+        let forged: std::collections::HashSet<u32> = hint_outs
+            .iter()
+            .zip(alt.iter().zip(&canon))
+            .filter(|(_, (a, cn))| a != cn)
+            .map(|(o, _)| o.0)
+            .collect();
+        for (r, kind) in t.alu_trace.op_kind.clone().iter().enumerate() {
+            if *kind == p3_circuit::AluOpKind::BoolCheck && forged.contains(&t.alu_trace.indices[r][3].0) {
+                t.alu_trace.values[r][0] = C::EF::ZERO;
+                t.alu_trace.values[r][2] = C::EF::ZERO;
+            }
+        }
+    }
 
     let pk = TablePacking::new(1, 1 + (c.alu_lanes % 4) as usize);
     let npo = NpoSel {
@@ -351,6 +373,7 @@ fn strategy() -> impl Strategy<Value = Case> {
             1 => Just(Alt::Canonical),
             3 => (0u8..5).prop_map(|limb| Alt::AddP { limb }),
             3 => any::<u8>().prop_map(|pos| Alt::NonBool { pos }),
+            3 => any::<u8>().prop_map(|pos| Alt::NonBoolDecoupled { pos }),
             1 => any::<u8>().prop_map(|pos| Alt::Flip { pos }),
         ],
     )
